@@ -560,6 +560,44 @@ def compare_bson(b, row, o):
         return None
     return ('spec', 'unhandled element type', line)
 
+def check_bson_size(chk, tier):
+    from .. import cfg as C, guards as G
+    rid = 'R07.bson.size'
+    chk.rule(rid, 'BSON end_document/end_array compare the bytes consumed with the declared size exactly (pos != length -> size_mismatch): '
+                  'both closers must use the same exact comparison', floor=2)
+    facts = F.load(['bson'], tier)
+    n = 0
+    for name in ('end_document', 'end_array'):
+        fns = U.functions(facts, cls='basic_bson_parser', name=name)
+        chk.require(fns, 'basic_bson_parser::%s not found' % name)
+        for fn in U.one_per_inst(fns):
+            chk.analysed(fn)
+            g = C.CFG(fn['body'])
+            found = None
+            for nd in g.rpo:
+                if nd.kind != 'cond': continue
+                cmp_ = G.comparison(nd.ast)
+                if not cmp_: continue
+                op, l, r = cmp_
+                names = {A.member_name(l) or A.ref_name(l), A.member_name(r) or A.ref_name(r)}
+                if names == {'pos', 'length'}:
+                    found = (nd, op)
+            n += 1
+            site = U.site(fn, 'size check')
+            if found is None:
+                chk.fail(rid, site, fn['file'], fn['l'], '%s has no comparison of pos with length' % name, None, fn['q']); continue
+            nd, op = found
+            rej_label = True if op == '!=' else (False if op == '==' else None)
+            ok = rej_label is not None
+            if ok:
+                rej = [e for e in nd.succ if e.kind == 'edge' and e.label is rej_label]
+                ok = bool(rej) and any(x.kind == 'stmt' and G.assigns_enumerator(x.ast, {'ec'}, 'size_mismatch') for x in G.region_of_edge(g, rej[0]))
+            if ok: chk.ok(rid, site, {'function': fn['q'], 'comparison': A.text(nd.ast)})
+            else:
+                chk.fail(rid, site, fn['file'], nd.line, '%s checks the declared size with `%s` instead of an exact pos != length -> size_mismatch' % (name, A.text(nd.ast)[:60]),
+                         {'function': fn['q']}, fn['q'])
+    chk.require(n >= 2, 'R07.bson.size: closers not found')
+
 def run(chk, tier, only_rule=None):
     chk.explanation = EXPLANATION
     chk.not_decided = NOT_DECIDED
@@ -567,3 +605,7 @@ def run(chk, tier, only_rule=None):
     check_cbor(chk, tier)
     check_ubjson(chk, tier)
     check_bson(chk, tier)
+    check_bson_size(chk, tier)
+    from . import c02
+    core = F.load(['core'], tier); chk.units.append('core')
+    c02.r02_7(chk, core, rid='R07.utf8')
